@@ -398,7 +398,10 @@ def pairwise_kernels(X, Y=None, metric="linear", **kw):
     if X.ndim != 2 or Y.ndim != 2 or (X.shape[1] != Y.shape[1] and len(Y) and len(X)):
         raise ValueError("Incompatible dimension for X and Y matrices")
     d = X.shape[1]
-    f = _KERN.setdefault(d, _z3.Function(f"kern{d}", *([_z3.RealSort()] * (2 * d)), _z3.RealSort()))
+    # the kernel value also depends on the bandwidth handed in (gamma): part of the function's arguments
+    g = kw.get("gamma", None)
+    gterm = core.lift(g).r if g is not None and core.is_numeric(g) else _z3.RealVal(-1)
+    f = _KERN.setdefault(d, _z3.Function(f"kern{d}", _z3.RealSort(), *([_z3.RealSort()] * (2 * d)), _z3.RealSort()))
     c = core.ctx()
     rx, ry = raw(X), raw(Y)
     out = _np.empty((X.shape[0], Y.shape[0]), dtype=object)
@@ -406,12 +409,12 @@ def pairwise_kernels(X, Y=None, metric="linear", **kw):
         for j in range(Y.shape[0]):
             a = [core.lift(v).r for v in rx[i]]
             b = [core.lift(v).r for v in ry[j]]
-            t = f(*a, *b)
+            t = f(gterm, *a, *b)
             key = ("kern", t.get_id())
             if key not in c.uf_axioms_done:
                 c.uf_axioms_done.add(key)
                 same = _z3.And(*[p == q for p, q in zip(a, b)]) if a else _z3.BoolVal(True)
-                c.add(_z3.And(t > 0, t <= 1, t == f(*b, *a), _z3.Implies(same, t == 1)))
+                c.add(_z3.And(t > 0, t <= 1, t == f(gterm, *b, *a), _z3.Implies(same, t == 1)))
             out[i, j] = core.SymFloat(t)
     return arrays._wrap(out, arrays.FLOAT)
 
